@@ -6,6 +6,8 @@
 //!   <id> faithful                            `Faithful` assumption re-validated on all of Unicode (thorough)
 //!   <id> ser <LE|BE> <data> <S> <P> <L> <C>  stream 1: content built through shuffled API calls
 //!   <id> serp <LE|BE> <data> <S> <P> <L> <C> same as `ser`, additionally repeated in 4 fresh child processes
+//!   <id> big <LE|BE> <np> <ns> <m> <nl>      structured LARGE content (size thresholds 2^8 / 2^16): np pointer cells, ns string
+//!                                             cells over m distinct strings, nl labels; compared with a closed-form reference
 //!   <id> img <LE|BE> <image> <data> <S> <P> <L>   stream 2: foreign conforming image of the content
 //!   <id> raw <LE|BE> <image>                 malformed / mutated image (outside the property: model tie only)
 //! Content fields:  S = `addr:hex,…` strings, P = `addr:target,…` pointers,
@@ -1142,9 +1144,159 @@ pub fn gen(seed: u64, tier: &str) -> Vec<String> {
             lines.push(format!("c01.g{}{:05} img {} {} {}", round, i, end_tag(c.big), hex(img), c.fields(false)));
         }
     }
+    // size thresholds (2^8, 2^16): structured contents with a closed-form reference in the driver.
+    // Small instances tie the closed form to the general `canonical`; the large ones cross 65 536.
+    {
+        let mut k = 0usize;
+        let mut push = |lines: &mut Vec<String>, big: bool, np: usize, ns: usize, m: usize, nl: usize| {
+            lines.push(format!("c02.b{:05} big {} {} {} {} {}", k, end_tag(big), np, ns, m, nl));
+            k += 1;
+        };
+        for i in 0..(if thorough { 200 } else { 40 }) {
+            let np = rng.below(6) as usize;
+            let ns = rng.below(12) as usize;
+            let m = rng.range(1, 8) as usize;
+            let nl = rng.below((4 * (np + ns) + 4) as u64) as usize;
+            push(&mut lines, i % 2 == 0, np, ns, m, nl);
+        }
+        // around 2^8
+        for (np, ns, m, nl) in [(0, 300, 255, 0), (0, 300, 256, 3), (0, 300, 257, 0), (257, 2, 2, 256), (3, 258, 258, 300)] {
+            push(&mut lines, rng.chance(1, 2), np, ns, m, nl);
+        }
+        // beyond 2^16: distinct strings (C02-12), pointers, labels
+        let e = rng.chance(1, 2);
+        push(&mut lines, e, 0, 65_537 + rng.below(300) as usize, 65_537, 2);
+        if thorough {
+            push(&mut lines, !e, 2, 66_000 + rng.below(300) as usize, 65_536 + rng.range(1, 200) as usize, 0);
+            push(&mut lines, e, 0, 65_536, 65_536, 0);
+            push(&mut lines, !e, 65_537 + rng.below(100) as usize, 3, 2, 5);
+            push(&mut lines, e, 1, 16_500, 300, 65_537 + rng.below(100) as usize);
+            push(&mut lines, !e, 30_000, 40_000, 39_000, 70_000);
+        } else {
+            push(&mut lines, !e, 65_536 + rng.range(1, 50) as usize, 2, 2, 1);
+            push(&mut lines, e, 1, 16_400, 200, 65_536 + rng.range(1, 50) as usize);
+        }
+    }
+    // size thresholds through the general path: strings of 254..258 and 65 534..65 538 encoded bytes with a
+    // double-byte character at the end / straddling the boundary (as string, label name and c-string), and
+    // more than 255 labels on one address
+    {
+        let mut k = 0usize;
+        let mut lens: Vec<usize> = vec![254, 255, 256, 257, 258];
+        if thorough {
+            lens.extend([65_534, 65_535, 65_536, 65_537, 65_538]);
+        } else {
+            lens.push(65_535 + rng.below(3) as usize);
+        }
+        for l in lens {
+            let s1 = format!("{}ソ", "a".repeat(l - 2));
+            let s2 = format!("{}ソb", "c".repeat(l - 3));
+            let s3 = format!("ｱ{}", "d".repeat(l - 1));
+            assert!(sjis(&s1).len() == l && sjis(&s2).len() == l && sjis(&s3).len() == l);
+            let big = rng.chance(1, 2);
+            let c = Content {
+                big,
+                data: rng.bytes(14),
+                strings: vec![(4, s1.clone()), (0, s2.clone())],
+                pointers: vec![],
+                labels: vec![(14, vec![s3.clone(), s1.clone()]), (2, vec![s3.clone()])],
+                cstrings: vec![(s2.clone(), vec![8])],
+            };
+            lines.push(format!("c01.t{:05} ser {} {}", k, end_tag(big), c.fields(true)));
+            k += 1;
+        }
+        for nlab in [255usize, 256, 257, 300] {
+            let big = rng.chance(1, 2);
+            let names: Vec<String> = (0..nlab).map(|i| if i % 7 == 3 { "dup".to_string() } else { big_lname(i * 31 % 1000) }).collect();
+            let c = Content {
+                big,
+                data: rng.bytes(8),
+                strings: vec![(0, "dup".to_string())],
+                labels: vec![(4, names), (8, vec!["end".to_string()])],
+                ..Default::default()
+            };
+            lines.push(format!("c01.t{:05} ser {} {}", k, end_tag(big), c.fields(true)));
+            k += 1;
+        }
+    }
     // bounded-exhaustive small scopes (cheap: run in both tiers)
     exhaustive_small(&mut lines, &mut n);
     lines
+}
+
+// ------------------------------------------------------------------------------------------------
+// structured large contents (counts beyond 2^16): the Lean driver has a closed-form reference for this family
+// ------------------------------------------------------------------------------------------------
+
+pub fn big_sname(j: usize) -> String {
+    let mut k = j;
+    let mut s = String::from("s");
+    for _ in 0..4 {
+        s.push((b'a' + (k % 26) as u8) as char);
+        k /= 26;
+    }
+    s
+}
+pub fn big_lname(t: usize) -> String {
+    let mut d = [0u8; 5];
+    let mut k = t;
+    for i in (0..5).rev() {
+        d[i] = b'a' + (k % 26) as u8;
+        k /= 26;
+    }
+    format!("L{}", std::str::from_utf8(&d).unwrap())
+}
+
+/// `np` pointer cells (cell k -> size - 4k), then `ns` string cells (cell np+i holds name(i mod m)), two raw tail
+/// bytes, `nl` single-name labels at addresses 0..nl with ascending names.
+fn big_content(big: bool, np: usize, ns: usize, m: usize, nl: usize) -> Content {
+    let size = 4 * (np + ns) + 2;
+    assert!(nl <= size + 1 && m >= 1);
+    let mut c = Content { big, data: (0..size).map(|i| (i * 7 + 3) as u8).collect(), ..Default::default() };
+    for k in 0..np {
+        c.pointers.push((4 * k, size - 4 * k));
+    }
+    for i in 0..ns {
+        c.strings.push((4 * (np + i), big_sname(i % m)));
+    }
+    for t in 0..nl {
+        c.labels.push((t, vec![big_lname(t)]));
+    }
+    c
+}
+
+fn run_big(line: &str, f: &[&str]) -> String {
+    let p = |i: usize| -> usize { f[i].parse().unwrap() };
+    let c = big_content(f[2] == "BE", p(3), p(4), p(5), p(6));
+    let mut rng = Rng::new(fnv(line));
+    let mut first: Option<Vec<u8>> = None;
+    let mut det = true;
+    for round in 0..2 {
+        let mut cc = c.clone();
+        if round == 1 {
+            rng.shuffle(&mut cc.strings);
+            rng.shuffle(&mut cc.pointers);
+            rng.shuffle(&mut cc.labels);
+        }
+        let a = build(&cc, &mut rng);
+        for _ in 0..(2 - round) {
+            match a.serialize() {
+                Err(e) => return format!("err {}", err_class(&e)),
+                Ok(v) => match &first {
+                    None => first = Some(v),
+                    Some(w) => det &= *w == v,
+                },
+            }
+        }
+    }
+    let img = first.unwrap();
+    match BinArchive::from_bytes(&img, c.endian()) {
+        Err(e) => format!("ok img={} det={} parse-err {}", hex(&img), det as u8, err_class(&e)),
+        Ok(b) => {
+            let re = b.serialize().map(|v| v == img).unwrap_or(false);
+            format!("ok img={} det={} re={} obs={:016x}", hex(&img), det as u8, re as u8, fnv(&observe(&b, &[])))
+        }
+    }
 }
 
 // ------------------------------------------------------------------------------------------------
@@ -1277,6 +1429,7 @@ pub fn run_line(_st: &mut super::State, line: &str) -> String {
         "faithful" => faithful_report(),
         "ser" => run_ser(line, &f),
         "serp" => run_serp(line, &f),
+        "big" => run_big(line, &f),
         "img" | "raw" => run_img(&f),
         _ => "bad-case".to_string(),
     }) {
